@@ -41,6 +41,7 @@ theorem pCorr_sqrt : SqrtExactP pCorr := by
   · exact sqrtExact_of_eval _ (by decide +kernel)
 
 theorem pCorr_rows : RowsOK pCorr := by
+  apply RowsOK.of_nodup
   intro i hi
   have : i = 0 ∨ i = 1 ∨ i = 2 := by have : i < 3 := hi; omega
   rcases this with rfl | rfl | rfl <;> simp [pCorr, Array.getD]
